@@ -50,6 +50,14 @@ KNOWN = [
 ]
 
 FIXED = [
+ ("C02", "fa335dc", "C02.R3 extract_pem_certificate: '-----END CERTIFICATE-----\\n-----BEGIN CERTIFICATE-----\\n' sliced with begin > end (findings/T2; found by triage of E-bounds' not-decided sites)"),
+ ("C02", "0dd47bf", "C02.R2 PidTracking::from_mapped: 28 bytes requested 2 x 128 MiB (up to 2 x 16 GiB) (findings/T5; found by triage)"),
+ ("C02", "6308181", "C02.R5 ESpec::parse('b:' x 200000 + 'n') overflowed the stack, SIGABRT (findings/T7; found by triage)"),
+ ("C02", "1df8088", "C02.R5 PathTable::parse on 100000 nested folder nodes overflowed the stack, SIGABRT (findings/T8; found by triage)"),
+ ("C02", "6f54169", "(no rule) is_v1_mime_response: char-boundary panic at byte 512 (findings/T1; found by triage)"),
+ ("C02", "5c288c5", "(no rule) decompress_patch_data: u64 overflow / wrap from ESpec numbers (findings/T3; found by triage)"),
+ ("C02", "94b66ee", "(no rule) LRU loader adopted out-of-range / cyclic links (findings/T4; found by triage)"),
+ ("C02", "e1eb191", "(no rule) LocalHeader::blte_size underflow (findings/T6; found by triage)"),
  ("C02", "d16909a", "C02.R3 archive index footer hash size: 36-byte file with footer_hash_bytes = 16 panicked in IndexFooter::is_valid, 24-byte file with footer_hash_bytes = 4 in the checksum-error branch of ArchiveIndex::parse / ChunkedArchiveIndex::open (findings/D1)"),
  ("C02", "b0cbecc", "C02.R3 patch index key_size > 16: a 95-byte patch index whose block 2 declares key_size = 17 panicked in PatchIndexEntry::parse (findings/D2)"),
  ("C02", "c1c0648", "C02.R4 .idx header widths 16/120/120 (and 9/250/0, 9/255/255): u8 overflow panic (debug) / wrap to 0 and slice panic (release) in IndexManager::load_index (findings/D3)"),
